@@ -20,7 +20,7 @@ ObsOK(st, e) == /\ e.none = None(st)
                 /\ e.cur = (IF NoP(st) THEN 0 ELSE st.cur)
                 /\ e.ball = (IF NoP(st) THEN 0 ELSE st.ball[st.cur])
                 /\ e.extra = (IF NoP(st) THEN 0 ELSE st.extra[st.cur])
-PBusy(st) == \/ st.nreq > 0
+PBusy(st) == \/ st.nreq > 0 \/ st.ncb > 0
              \/ \E p \in P : st.padd[p] \in {"will", "posted", "added"} \/ (st.padd[p] = "dlv" /\ ~st.pheld[p])
 Quiescent(st) == ~AdvEnabled(st) /\ st.pc # "posted" /\ ~PBusy(st)
 CtxOK(e) == /\ (e.ctx = "top" => Quiescent(s))
@@ -48,11 +48,10 @@ Req(e) == \/ e.kind = "end_ball" /\ EndBall
 Step(e) ==
     \* lines that belong to a player-add pipeline of an earlier game object say nothing about this game
     \/ e.stale /\ UNCHANGED vars
-    \* (the handlers of player_add_request run before its callback creates the player)
-    \/ ~e.stale /\ e.op = "ev" /\ Ev(e) /\ ObsOK(IF e.name = "player_add_request" THEN s ELSE s', e)
+    \/ ~e.stale /\ e.op = "ev" /\ Ev(e) /\ ObsOK(s', e)
     \/ ~e.stale /\ e.op = "req" /\ CtxOK(e) /\ Req(e) /\ ObsOK(s', e)
     \/ ~e.stale /\ e.op = "rest" /\ Quiescent(s) /\ ObsOK(s, e) /\ UNCHANGED vars
-Silent == (Adv \/ \E p \in P : PComplete(p)) /\ UNCHANGED <<tid, l>>
+Silent == (Adv \/ PCreate \/ \E p \in P : PComplete(p)) /\ UNCHANGED <<tid, l>>
 TNext == \/ Silent
          \/ l <= Len(TL) /\ Step(TL[l]) /\ l' = l + 1 /\ UNCHANGED tid
 TSpec == TInit /\ [][TNext]_tvars
